@@ -70,12 +70,40 @@ class Recorder:
 
         spmod.FSStoragePlugin = RecFS
         snapmod.sync_execute_read_reqs = wrapped
+        # the copy of a deserialised buffer into the destination (run in the executor): slowed down a little and logged,
+        # so that a buffer counts as alive until its bytes have really been copied - also when consume_buffer returns early
+        import time
+        import torchsnapshot.io_preparers.sharded_tensor as stmod
+        import torchsnapshot.io_preparers.tensor as tmod
+        self._copy = tmod.tensor_copy
+
+        def slow_copy(dst, src, _orig=self._copy):
+            time.sleep(0.001)
+            _orig(dst, src)
+            rec.events.append(("copied", int(src.nelement() * src.element_size())))
+        tmod.tensor_copy = slow_copy
+        stmod.tensor_copy = slow_copy
         return self
 
     def __exit__(self, *a):
         import torchsnapshot.snapshot as snapmod
         import torchsnapshot.storage_plugin as spmod
         spmod.FSStoragePlugin, snapmod.sync_execute_read_reqs = self._fs, self._exec
+        import torchsnapshot.io_preparers.sharded_tensor as stmod
+        import torchsnapshot.io_preparers.tensor as tmod
+        tmod.tensor_copy = self._copy
+        stmod.tensor_copy = self._copy
+
+    def uncopied(self):
+        """trace of (bytes handed to consumers and not yet copied into the destination, number of such buffers)"""
+        tot, n, trace = 0, 0, []
+        for e in list(self.events):
+            if e[0] == "cbegin":
+                tot += e[2]; n += 1
+            elif e[0] == "copied":
+                tot -= e[1]; n -= 1
+            trace.append((tot, n))
+        return trace
 
     def max_alive(self):
         """(max total bytes of buffers alive at once, max number alive when the total exceeded a given bound is computed by caller)"""
@@ -165,6 +193,12 @@ def correspond(ctx: Ctx) -> Result:
                                     res.failures.append(Failure("C18:inflight-buffers-exceed-budget",
                                                                 f"read_object({mpath!r}, budget={b}): {tot} buffer bytes alive in {n} buffers [{entry_kind(entry)} nobatch={knobs['nobatch']}]", replay))
                                     break
+                            if getattr(entry, "serializer", "buffer_protocol") == "buffer_protocol" and not isinstance(entry, ObjectEntry):
+                                for tot, n in rec.uncopied():
+                                    if tot > b and n > 1:
+                                        res.failures.append(Failure("C18:inflight-buffers-exceed-budget:copy-pending",
+                                                                    f"read_object({mpath!r}, budget={b}): {tot} bytes in {n} buffers had been handed to consumers and not yet copied into the destination [{entry_kind(entry)}]", replay))
+                                        break
                             reads = [e for e in rec.events if e[0] == "read"]
                             if isinstance(entry, TensorEntry) and entry.serializer == "buffer_protocol" and reads:
                                 # a flattenable destination: the single oversized request would be the whole tensor
